@@ -185,7 +185,8 @@ class CommonMethodsMixin:
                         "not allowed: {2!A}", ", ".join(invalid_props),
                         modified_instance.classname, modified_instance.path))
 
-        if modified_instance.classname != SUBSCRIPTION_CLASSNAME:
+        if modified_instance.classname.lower() != \
+                SUBSCRIPTION_CLASSNAME.lower():
             self.validate_no_subscription(modified_instance.path)
 
     def parameter_is_interop(self, ns, classname):
